@@ -302,6 +302,21 @@ def rule_r2(ctx) -> RuleResult:
     if not restore_seen:
         rr.bad(Finding("C11.R2", CORE, "core.Wtp.create_db", "if self.backup_db_path.exists(): ...",
                        "the restore branch no longer precedes opening the database", fn.lineno))
+    # crash points: the side files of the abandoned database are removed *before* the backup is
+    # moved into place.  In the other order a crash between the two steps leaves a state with the
+    # backup consumed (so the next start takes the normal path) and the stale -wal next to the
+    # restored file, which SQLite then replays onto it.
+    for (op, a, b, n), st in w.log:
+        if op == "move" and "BACKUP" in a and "DB" in b and ("backup_exists",) in st:
+            for side in ("WAL", "SHM"):
+                if ("deleted", side) in st or ("deleted", "GLOB") in st:
+                    rr.ok("core.Wtp.create_db", "{} already removed when the backup is moved into place".format(side),
+                          {"order": side + " removed before rename"})
+                else:
+                    rr.bad(Finding("C11.R2", CORE, "core.Wtp.create_db", unparse(n),
+                                   "the backup is renamed over the database while the old database's {} file still exists; a crash right "
+                                   "after this rename leaves no backup to trigger the restore path and a stale {} that is replayed onto the "
+                                   "restored database at the next start".format(side, side), n.lineno))
     # the backup must not be deleted (directly or through a glob that may match it)
     # before it has been moved
     for (op, a, b, n), st in w.log:
